@@ -17,7 +17,8 @@ ANCHORS = ['numdifftools.fornberg:Taylor.__call__', 'numdifftools.fornberg:Taylo
 MIN_COUNTERS = dict(quick={'length_asserted': 1500, 'coefficients_asserted': 8000, 'derivative_scaling_asserted': 300,
                            'default_radius_status_asserted': 300, 'failed_flag_asserted': 1500},
                     thorough={'coefficients_asserted': 300000})
-RULE = ('f in {exp(a z), 1/(b - z), sin(a z), cos(a z), log(b + z), (1 + z)^p, polynomials, products and compositions of them} '
+RULE = ('3 % nested expansions: the expanded function computes d/dw f(z + w) with derivative() element by element. ' 
+        'f in {exp(a z), 1/(b - z), sin(a z), cos(a z), log(b + z), (1 + z)^p, polynomials, products and compositions of them} '
         'as expression trees (exact coefficients from jets over 50-digit complex arithmetic), z0 in the unit square of C or real, '
         'n in 1..100, initial radius 1e-5..1 (or the default), step_ratio 1.2..3, num_extrap 1..5. distinct non-trivial = (family, n '
         'bucket, radius decade, complex z0?) for runs reported neither degenerate nor failed')
